@@ -86,8 +86,8 @@ CHECKS["C09"] = dict(
 CHECKS["C12"] = dict(
     engine="E2-symx-symnp", ref="DESIGN.md §4.11",
     technique="z3 (linear real arithmetic over the concrete tile geometry) via own symbolic execution of the real toast_tile_for_point / containment score / _div4 with a symbolic point; inductive rule + cover obligations for every tile up to the depth bound",
-    text="For every direction on the sphere (symbolic), both coordinate systems: the real level-1 selection returns a tile containing the point (lon + 2*pi*m likewise); one real loop iteration with symbolic scores picks the first zero-score child else the best; for EVERY tile of levels 1..D-1 (D = 4 quick, 6 thorough) the children produced by the real _div4 and scored by the real containment function cover the parent up to a 1e-12 rounding tolerance => by induction the depth-d tile contains the point; nesting cross-checked end-to-end to depth 2.",
-    note="Cartesian direction tied to longitude by sign facts of sin/cos only; concrete double geometry evaluated exactly; the 2-pixel accuracy of toast_pixel_for_point (lstsq) is not decided.",
+    text="For every direction on the sphere (symbolic), both coordinate systems: the real level-1 selection returns a tile containing the point (lon + 2*pi*m likewise); one real loop iteration with symbolic scores picks the first zero-score child else the best; for EVERY tile of levels 1..D-1 (D = 4 quick, 6 thorough) the children produced by the real _div4 and scored by the real containment function cover the parent up to a 1e-12 rounding tolerance => by induction the depth-d tile contains the point; nesting cross-checked end-to-end to depth 2. toast_pixel_for_point: for every real tile of levels 1..3 (5 thorough) z3 looks for a documented query longitude in the tile's range that is more than pi away (as a number) from the tile's pixel longitudes; hits are replayed against the nearest pixel centre.",
+    note="Cartesian direction tied to longitude by sign facts of sin/cos only; concrete double geometry evaluated exactly; of the 2-pixel accuracy of toast_pixel_for_point only the longitude-branch consistency is decided (the least-squares fit itself is not encodable).",
 )
 
 CHECKS["C01"] = dict(
